@@ -2,7 +2,7 @@
 import re
 from rules.common import (opmap, PredTrue, PredFalse, VariantEdge, where, flat_atoms, all_origins, exact_origins, ops_of, show, origin_match,
                           eq_test, field_val, effects_signature)
-from base import CutPolicy
+from base import CutPolicy, rel_sign
 from absint import EMPTY, vfield, tagvals, const_of
 
 EXPLANATION = ("static analysis (MIR abstract interpretation): LP is minted only by ProvideLiquidity and burnt only by WithdrawLiquidity "
@@ -97,7 +97,7 @@ def run(W, chk):
         da = e.extra["dargs"]
         chk.expect(exact_origins(da[2]) == {"info.funds[*].amount"} and not ops_of(da[2]) and exact_origins(da[0]) == {"Store(POOLS).lp_denom"},
                    "PROV-burn", "withdraw", "burns exactly the LP paid in, of the pool's LP denom", "burn(%s, %s)" % (show(da[0])[:80], show(da[2])[:120]), where(e))
-    g = PredTrue("share_ratio <= 1", lambda pn, pa: pn == "le" and "Query(supply)" in all_origins(pa[0]))
+    g = PredTrue("share_ratio <= 1", lambda pn, pa: rel_sign(pn, pa, lambda v: "Query(supply)" in all_origins(v), "<=", lambda v: all_origins(v) <= {"Const(1)"} and bool(all_origins(v))))
     pol = CutPolicy([g])
     B = W.run(PM, "execute", ("WithdrawLiquidity",), pol)
     chk.expect(bool(pol.hits) and not B.effects(), "CUT-share-ratio", "withdraw", "no effect unless amount/supply <= 1",
